@@ -5,7 +5,7 @@ import Rain.Lemmas.Table
 C13 — "Table files give back exactly what was put in".
 
 Only property theorems; helper lemmas are in `Rain/Lemmas/Block.lean`, `Rain/Lemmas/Table.lean`.
-Quantifiers: every restart interval ≥ 1, every list of key/value byte strings (blocks); every
+Quantifiers: every restart interval ≥ 1, every non-empty list of key/value byte strings (blocks); every
 strictly sorted entry list and EVERY partition of it into non-empty blocks (hence every
 `max_block_size`, from one entry per block to the whole table in one block), every lookup key
 and sequence bound, every sequence of cursor operations.
@@ -13,19 +13,32 @@ and sequence bound, every sequence of cursor operations.
 namespace Rain.Table
 open Rain Rain.Lsm Rain.Block
 
-/-- **Blocks round-trip**, for every restart interval and every list of key/value pairs
+-- Statement as first written (FALSE for `kvs = []`: `decodeRaw (encodeRaw 2 []) = none`, because
+-- the builder always records restart offset 0 and the reader requires every recorded restart
+-- offset to be matched by an entry; `src/tables/block.rs` rejects such a block too):
+--   theorem C13_block_roundtrip (r : Nat) (hr : 0 < r) (kvs : List (Bytes × Bytes))
+--       (hsize : (encodeRaw r kvs).length < 2^32) : decodeRaw (encodeRaw r kvs) = some kvs
+-- Proved with the minimal missing hypothesis `hnonempty`; the table builder never emits an empty
+-- block (`C13_partition_ok`).
+/-- **Blocks round-trip**, for every restart interval and every non-empty list of key/value pairs
 (prefix compression, restart points, varint lengths). `hsize` is the range in which the `u32`
 fields of the format do not overflow. -/
 theorem C13_block_roundtrip (r : Nat) (hr : 0 < r) (kvs : List (Bytes × Bytes))
+    (hnonempty : kvs ≠ [])
     (hsize : (encodeRaw r kvs).length < 2^32) :
     decodeRaw (encodeRaw r kvs) = some kvs :=
-  Block.Lemmas.block_roundtrip r hr kvs hsize
+  Block.Lemmas.block_roundtrip_partial r hr kvs hnonempty hsize
 
+/-- the hypothesis `hnonempty` cannot be dropped -/
+example : decodeRaw (encodeRaw 2 []) = none := by decide
+
+-- (as first written, without `hnonempty`: false for `es = []`, as above)
 /-- the same for internal-key entries (sequence numbers are `u64`) -/
 theorem C13_entry_block_roundtrip (r : Nat) (hr : 0 < r) (es : List Entry)
+    (hnonempty : es ≠ [])
     (hseq : ∀ e ∈ es, e.seq < 2^64) (hsize : (encodeBlock r es).length < 2^32) :
     decodeBlock (encodeBlock r es) = some es :=
-  Block.Lemmas.entry_block_roundtrip r hr es hseq hsize
+  Block.Lemmas.entry_block_roundtrip_partial r hr es hnonempty hseq hsize
 
 /-- **Separators**: `smaller ≤ separator < greater` … -/
 theorem C13_bytes_separator (a b : Bytes) (h : bytesLt a b = true) :
